@@ -416,21 +416,24 @@ func checkWideOffsets(p *Prog, r *Report) {
 	rd := anchorFunc(p, r, pkgReceiver, "Transfer", "receiveData")
 	if rd != nil {
 		found := 0
-		allCalls(rd, func(c ssa.CallInstruction) {
-			if calleeName(c) != "(*os.File).ReadAt" {
-				return
-			}
-			found++
-			off := stripConv(helperResult(c.Common().Args[2]))
-			bo, ok := off.(*ssa.BinOp)
-			wide := false
-			if ok && bo.Op == token.MUL {
-				if b, isB := bo.Type().Underlying().(*types.Basic); isB && sizeofBasic(b) == 8 {
-					wide = true
+		// receiveData and the receiver functions it was split into
+		for _, u := range p.ModGraph().unitFuncs(rd) {
+			allCalls(u, func(c ssa.CallInstruction) {
+				if calleeName(c) != "(*os.File).ReadAt" {
+					return
 				}
-			}
-			r.Cond(wide, rule, "receiveData → ReadAt(offset)", p.Pos(instrPos(c)), "the basis offset of a block reference must be a 64-bit product of the block index and the block length")
-		})
+				found++
+				off := stripConv(helperResult(c.Common().Args[2]))
+				bo, ok := off.(*ssa.BinOp)
+				wide := false
+				if ok && bo.Op == token.MUL {
+					if b, isB := bo.Type().Underlying().(*types.Basic); isB && sizeofBasic(b) == 8 {
+						wide = true
+					}
+				}
+				r.Cond(wide, rule, "receiveData → ReadAt(offset)", p.Pos(instrPos(c)), "the basis offset of a block reference must be a 64-bit product of the block index and the block length")
+			})
+		}
 		if found == 0 {
 			r.Bad(rule, "receiveData → ReadAt(offset)", p.Pos(rd.Pos()), "no ReadAt of the basis file found: re-read how block references are resolved")
 		}
